@@ -1058,6 +1058,11 @@ class NumpyModel:
                     me = interp.sx_build(target)
                     if me in (value.bin[3], value.bin[4]):
                         adds = aug = True
+                    # d[k] = d.get(k, 0) + v
+                    for op_ in (value.bin[1], value.bin[2]):
+                        g_ = op_.got_from if op_ is not None else None
+                        if g_ is not None and g_[0] == interp.sx_build(tv) and g_[1] == interp.sx(target.slice) and g_[2] == 0 and g_[2] is not False:
+                            adds = aug = True
                 self.rebind(interp, st, frame, tv, base.w(elem=join(base.elem, value), keyelem=join(base.keyelem, idx) if base.keyelem is not None or not base.empty_init else idx,
                                                           empty_init=None, accum=True if (adds and not base.overwrite) else (base.accum if aug else None),
                                                           overwrite=True if not aug else base.overwrite))
